@@ -84,6 +84,19 @@ Next ==
      /\ (Response \/ Sens \/ Reset \/ \E c \in Coefs \cup {None} : SetSeed(c))
 
 Spec == Init /\ [][Next]_vars
+
+(* loop-shaped histories, as an optimiser or a finite-difference check produces them: one response, then cycles of      *)
+(* (seed, sensitivity[, sensitivity], [reset]) with a different seed each time; reaches three cycles at a depth where  *)
+(* the unrestricted Next is far too wide                                                                               *)
+NextS ==
+  \/ Finish
+  \/ /\ Len(hist) < Depth
+     /\ CASE last.op = "Init" -> Response
+          [] last.op \in {"Response", "Reset"} -> \E c \in Coefs : SetSeed(c)
+          [] last.op = "SetSeed" -> Sens
+          [] last.op = "Sens" -> Reset \/ Sens \/ Response \/ (\E c \in Coefs \cup {None} : SetSeed(c))
+          [] OTHER -> FALSE
+SpecS == Init /\ [][NextS]_vars
 DepthBound == TLCGet("level") <= Depth + 1
 
 -----------------------------------------------------------------------------
